@@ -60,6 +60,46 @@ def main():
         if r:
             print(json.dumps({"reproduced": True, "detail": r, "input": {"f": f, "ess_ratio": er, "n_particles": n, "seed": seed, "vectorize": vec}, "tried": tried}))
             return
+    # checkpoint + resume: the prior-sampling entries (beta = 0, logz = log of the finite fraction) survive the round trip and the
+    # resumed run reproduces the uninterrupted run's evidence
+    import tempfile, os, shutil
+    tmp = tempfile.mkdtemp(prefix="c11_")
+    cwd = os.getcwd()
+    os.chdir(tmp)
+    try:
+        for f, er in ((0.5, 2.0), (0.25, 4.0)):
+            def ll(x, f=f):
+                return -np.inf if x[0] >= f else -0.5 * np.sum((x - 0.3 * f) ** 2) / 0.05 ** 2
+            d1 = os.path.join(tmp, f"a{f}")
+            s1 = Sampler(lambda u: u, ll, n_dim=2, n_particles=100, ess_ratio=er, random_state=2, output_dir=d1)
+            s1.run(n_total=200, progress=False, save_every=1)
+            b1, z1 = np.asarray(s1.state.get_history("beta")), np.asarray(s1.state.get_history("logz"))
+            cks = sorted((x for x in os.listdir(d1) if x.endswith(".state") and "final" not in x), key=lambda x: int(x.split("_")[1].split(".")[0]))
+            n0 = int((b1 == 0).sum())
+            for k in sorted({max(1, n0 - 1), min(len(cks), n0 + 1)}):
+                tried += 1
+                path = os.path.join(d1, f"ps_{k}.state")
+                if not os.path.exists(path):
+                    continue
+                s2 = Sampler(lambda u: u, ll, n_dim=2, n_particles=100, ess_ratio=er, random_state=2, output_dir=os.path.join(tmp, f"b{f}_{k}"))
+                s2.run(n_total=200, progress=False, resume_state_path=path)
+                b2, z2 = np.asarray(s2.state.get_history("beta")), np.asarray(s2.state.get_history("logz"))
+                m = min(k, len(b2))
+                if len(b2) < k or not np.array_equal(b1[:k], b2[:k]) or not np.allclose(z1[:k], z2[:k], rtol=0, atol=1e-12):
+                    print(json.dumps({"reproduced": True, "tried": tried, "detail": f"support fraction {f}: after resuming from iteration {k} the stored prior-sampling "
+                                      f"entries changed: beta {b2[:m].tolist()} / logz {np.round(z2[:m], 6).tolist()} instead of beta {b1[:k].tolist()} / logz {np.round(z1[:k], 6).tolist()}",
+                                      "input": {"f": f, "resume_from": k}}))
+                    return
+                if abs(s2.evidence()[0] - s1.evidence()[0]) > 1e-9:
+                    print(json.dumps({"reproduced": True, "tried": tried, "detail": f"support fraction {f}: run resumed from iteration {k} ends with logZ {s2.evidence()[0]:.6f}, "
+                                      f"the uninterrupted run with {s1.evidence()[0]:.6f}", "input": {"f": f, "resume_from": k}}))
+                    return
+    except Exception as e:
+        print(json.dumps({"reproduced": True, "tried": tried, "detail": f"checkpoint/resume with a zero-likelihood region raised {type(e).__name__}: {e}", "input": {"probe": "resume"}}))
+        return
+    finally:
+        os.chdir(cwd)
+        shutil.rmtree(tmp, ignore_errors=True)
     print(json.dumps({"reproduced": False, "tried": tried, "detail": "native contract held"}))
 
 
